@@ -50,8 +50,8 @@ type result struct {
 	Calls   int      `json:"calls"`
 }
 
-var gateKind = map[string]string{"getattr": "GetAttr", "read": "ReadAt", "write": "WriteAt", "walk": "Walk", "mkdir": "Mkdir", "renameat": "RenameAt", "setattr": "SetAttr"}
-var replyType = map[string]string{"getattr": "Rgetattr", "read": "Rread", "write": "Rwrite", "walk": "Rwalk", "mkdir": "Rmkdir", "renameat": "Rrenameat", "setattr": "Rsetattr"}
+var gateKind = map[string]string{"getattr": "GetAttr", "read": "ReadAt", "write": "WriteAt", "walk": "Walk", "mkdir": "Mkdir", "renameat": "RenameAt", "setattr": "SetAttr", "clunk": "Close"}
+var replyType = map[string]string{"getattr": "Rgetattr", "read": "Rread", "write": "Rwrite", "walk": "Rwalk", "mkdir": "Rmkdir", "renameat": "Rrenameat", "setattr": "Rsetattr", "clunk": "Rclunk"}
 
 type runner struct {
 	t     *wirecodec.Table
@@ -108,7 +108,7 @@ func (rn *runner) run(in *input, si int) (*result, error) {
 		fid := 100 + r.ID
 		var names []string
 		switch r.Op {
-		case "getattr", "walk", "setattr":
+		case "getattr", "walk", "setattr", "clunk":
 			names = []string{fmt.Sprintf("d%d", r.ID)}
 		case "read", "write":
 			names = []string{fmt.Sprintf("f%d", r.ID)}
@@ -261,6 +261,8 @@ func (rn *runner) run(in *input, si int) (*result, error) {
 				switch r.Op {
 				case "getattr":
 					err = raw.Send("Tgetattr", uint16(tg), wirecodec.Values{"fid": fid, "request_mask": []string{"mode"}})
+				case "clunk":
+					err = raw.Send("Tclunk", uint16(tg), wirecodec.Values{"fid": fid})
 				case "setattr":
 					err = raw.Send("Tsetattr", uint16(tg), wirecodec.Values{"fid": fid, "valid": []string{"size"}})
 				case "read":
